@@ -9,6 +9,7 @@ import (
 	"io"
 	"log"
 	"os"
+	"sort"
 	"strconv"
 	"strings"
 	"testing"
@@ -24,8 +25,8 @@ var prop = os.Getenv("VERIF_PROP")
 
 var rules = map[string]string{
 	"C10": "cases = (P producers x W writes x ring size x mode {waiter, poller} x wrapped-writer behaviour {returns, yields inside Write, blocks forever}) x schedule over individual atomic/mutex/cond/pool/channel operations of the real diode sources run on a cooperative scheduler: bounded-preemption DFS for small configurations, PCT priorities and rapid byte-string schedules beyond. oracle = history invariants: every producer's Write returns; each delivered buffer equals exactly one earlier Write argument and is unchanged while inside the wrapped Write; no duplicate; deliveries never overlap; delivered claim positions strictly increase; sum of alerter counts <= ring positions claimed. non-trivial = schedule with >=1 preemption in which lapping, a Set retry or a producer/consumer overlap occurred; distinct = FNV-64 of (config, schedule)",
-	"C11": "cases = as C10 (wrapped writer always returns) with Close called by the main thread after all producers returned, at every point the schedule allows. oracle = after Close returned: delivered + reported >= written, with equality when no producer retried a ring position; nothing dropped while fewer than size messages were outstanding; no delivery after Close returned. non-trivial = Close raced with a non-empty ring or lapping occurred; distinct = FNV-64 of (config, schedule)",
-	"C12": "cases = as C10 in waiter and poller mode; the main thread (lowest priority) observes the quiescent state after all producers returned and before Close, then calls Close. oracle = at quiescence delivered + reported >= written (a parked consumer with an undelivered, unreported message is a violation; poller: after two idle poll rounds); after Close is called every thread terminates (no deadlock, step bound not hit under the fair tail). non-trivial = a producer's Set/Broadcast fell between the consumer's empty TryNext and its Wait, or cancel raced with Wait, or >=1 preemption with the ring non-empty; distinct = FNV-64 of (config, schedule)",
+	"C11": "cases = as C10 (wrapped writer always returns) with Close called by the main thread after all producers returned, at every point the schedule allows. oracle = after Close returned: delivered + reported >= written, with equality when no producer retried a ring position, and every undelivered message covered by reports made after its Write began (a report cannot account for a message written later); nothing dropped while fewer than size messages were outstanding; no delivery after Close returned. non-trivial = Close raced with a non-empty ring or lapping occurred; distinct = FNV-64 of (config, schedule)",
+	"C12": "cases = as C10 in waiter and poller mode; the main thread (lowest priority) observes the quiescent state after all producers returned and before Close, then calls Close. oracle = at quiescence delivered + reported >= written and every undelivered message covered by reports made after its Write began (a parked consumer with an undelivered, unreported message is a violation; poller: after two idle poll rounds); after Close is called every thread terminates (no deadlock, step bound not hit under the fair tail). non-trivial = a producer's Set/Broadcast fell between the consumer's empty TryNext and its Wait, or cancel raced with Wait, or >=1 preemption with the ring non-empty; distinct = FNV-64 of (config, schedule)",
 }
 
 var rec = ev.New(prop, rules[prop])
@@ -127,6 +128,50 @@ type result struct {
 	sched                              *vsched.Sched
 	effPos                             map[string]uint64
 	lapped                             bool
+	// a logical clock over write starts, deliveries and alerts: a report can only cover messages
+	// whose Write had begun when it was made
+	clock    int
+	startAt  map[string]int
+	alertAt  []int
+	qAlerts  int
+	returned map[string]bool
+	// qUncovered: at the quiescent observation, a returned message nothing accounts for
+	qUncovered string
+}
+
+// uncovered returns a message whose Write has returned, which is not among the first nDelivered
+// deliveries and which the first nAlerts reports cannot account for: a report made before a Write
+// began says nothing about that Write's message. With nested eligibility (a later message can only
+// be covered by later reports) Hall's condition reduces to one inequality per start time.
+func (r *result) uncovered(nDelivered, nAlerts int) (string, bool) {
+	got := map[string]bool{}
+	for _, d := range r.delivered[:nDelivered] {
+		got[d] = true
+	}
+	type lost struct {
+		m  string
+		at int
+	}
+	var ls []lost
+	for m := range r.returned {
+		if !got[m] {
+			ls = append(ls, lost{m, r.startAt[m]})
+		}
+	}
+	sort.Slice(ls, func(i, j int) bool { return ls[i].at > ls[j].at })
+	for i, l := range ls {
+		// i+1 undelivered messages began at or after l.at
+		capacity := 0
+		for k := 0; k < nAlerts; k++ {
+			if r.alertAt[k] > l.at {
+				capacity += r.alerts[k]
+			}
+		}
+		if capacity < i+1 {
+			return l.m, true
+		}
+	}
+	return "", false
 }
 
 type wrapped struct {
@@ -155,6 +200,7 @@ func (w *wrapped) Write(p []byte) (int, error) {
 		}
 	}
 	w.r.delivered = append(w.r.delivered, s)
+	w.r.clock++
 	if *w.closed {
 		w.r.afterClose++
 	}
@@ -224,7 +270,7 @@ func message(p, k int, cfg Config) []byte {
 
 // runOnce executes one schedule.
 func runOnce(cfg Config, ch vsched.Chooser, keepTrace bool) *result {
-	r := &result{effPos: map[string]uint64{}}
+	r := &result{effPos: map[string]uint64{}, startAt: map[string]int{}, returned: map[string]bool{}}
 	closed := false
 	sent := map[string]bool{}
 	for p := 0; p < cfg.P; p++ {
@@ -248,6 +294,8 @@ func runOnce(cfg Config, ch vsched.Chooser, keepTrace bool) *result {
 		var alerter diode.Alerter = func(missed int) {
 			vsched.Progress()
 			r.alerts = append(r.alerts, missed)
+			r.clock++
+			r.alertAt = append(r.alertAt, r.clock)
 			r.reported += missed
 			vsched.Record("alert", 0, uint64(missed), true)
 			if cfg.Reentrant && nalert < 3 {
@@ -256,9 +304,12 @@ func runOnce(cfg Config, ch vsched.Chooser, keepTrace bool) *result {
 				m := fmt.Sprintf("alert-%d|dropped", nalert)
 				sent[m] = true
 				vsched.Record("awrite-start", uint64(nalert), 0, true)
+				r.clock++
+				r.startAt[m] = r.clock
 				dw.Write([]byte(m))
 				vsched.Record("awrite-end", uint64(nalert), 0, true)
 				r.written++
+				r.returned[m] = true
 			}
 		}
 		if cfg.NilAlert {
@@ -277,10 +328,13 @@ func runOnce(cfg Config, ch vsched.Chooser, keepTrace bool) *result {
 				for k := 0; k < cfg.W; k++ {
 					buf = append(buf[:0], message(p, k, cfg)...)
 					vsched.Record("write-start", uint64(p), uint64(k), true)
+					r.clock++
+					r.startAt[string(buf)] = r.clock
 					dw.Write(buf)
 					vsched.Record("write-end", uint64(p), uint64(k), true)
 					vsched.Progress() // idle poll rounds count from the last returned Write
 					r.written++
+					r.returned[string(message(p, k, cfg))] = true
 					for i := range buf { // the caller reuses its buffer, as zerolog does
 						buf[i] = '#'
 					}
@@ -311,7 +365,8 @@ func runOnce(cfg Config, ch vsched.Chooser, keepTrace bool) *result {
 			me.LowPrio = true
 			vsched.WaitQuiescent()
 			r.quiescentSeen = true
-			r.qDelivered, r.qReported = len(r.delivered), r.reported
+			r.qDelivered, r.qReported, r.qAlerts = len(r.delivered), r.reported, len(r.alerts)
+			r.qUncovered, _ = r.uncovered(r.qDelivered, r.qAlerts)
 			vsched.Record("quiescent", uint64(r.qDelivered), uint64(r.qReported), true)
 		}
 		if cfg.TwoClose {
@@ -501,6 +556,8 @@ func judge(cfg Config, r *result) verdict {
 			v.msg = fmt.Sprintf("a second, concurrent Close returned with delivered %d + reported %d < written %d: messages still in the ring", r.c2Delivered, r.c2Reported, r.c2Written)
 		case len(r.delivered)+r.reported < r.written:
 			v.msg = fmt.Sprintf("after Close: delivered %d + reported %d < written %d (silent loss)", len(r.delivered), r.reported, r.written)
+		case finalUncovered(r) != "":
+			v.msg = fmt.Sprintf("after Close: message %q is neither delivered nor covered by a report made after its Write began (delivered %d, reported %d, written %d): silent loss", trunc(finalUncovered(r)), len(r.delivered), r.reported, r.written)
 		case r.retries == 0 && len(r.delivered)+r.reported != r.written:
 			v.msg = fmt.Sprintf("no producer retried, yet delivered %d + reported %d != written %d", len(r.delivered), r.reported, r.written)
 		case cfg.P*cfg.W < cfg.Size && r.reported > 0 && r.retries == 0:
@@ -516,6 +573,8 @@ func judge(cfg Config, r *result) verdict {
 			v.msg = fmt.Sprintf("system never became quiescent after all Writes returned (deadlock=%v step bound=%v)", s.Deadlock, s.StepLimit)
 		case r.quiescentSeen && r.qDelivered+r.qReported < r.written:
 			v.msg = fmt.Sprintf("quiescent with nothing left to run, yet delivered %d + reported %d < written %d: a returned Write needs a later Write or Close to be delivered", r.qDelivered, r.qReported, r.written)
+		case r.quiescentSeen && r.qUncovered != "":
+			v.msg = fmt.Sprintf("quiescent with nothing left to run, yet message %q is neither delivered nor covered by a report made after its Write began (delivered %d, reported %d, written %d): a returned Write needs a later Write or Close to be delivered", trunc(r.qUncovered), r.qDelivered, r.qReported, r.written)
 		case (r.quiescentSeen || cfg.Early) && r.producersDone == cfg.P && !r.closeReturned:
 			v.msg = fmt.Sprintf("Close did not return (deadlock=%v, step bound hit=%v)", s.Deadlock, s.StepLimit)
 		case cfg.Poller && s.MaxSleep > pollInterval(cfg):
@@ -531,6 +590,11 @@ func judge(cfg Config, r *result) verdict {
 		v.nontrivial = s.Preempt >= 1
 	}
 	return v
+}
+
+func finalUncovered(r *result) string {
+	m, _ := r.uncovered(len(r.delivered), len(r.alerts))
+	return m
 }
 
 func pollInterval(cfg Config) time.Duration {
@@ -738,6 +802,9 @@ func dfsConfigs() []struct {
 		add(2, 1, 1, 2)
 		add(1, 3, 2, 2)
 	}
+	// a partial lap (the consumer held with one message while three more go into a ring of two), the
+	// consumer catching up, then a fresh Write: stale buckets behind the read head, a message in front
+	add(1, 5, 2, 2)
 	out = append(out, cb{Config{P: 1, W: 3, Size: 1, Writer: "returns", NilAlert: true}, 2}, cb{Config{P: 1, W: 3, Size: 1, Poller: true, Writer: "returns", NilAlert: true}, 2})
 	if prop == "C10" {
 		out = append(out, cb{Config{P: 2, W: 1, Size: 1, Writer: "returns", BigCap: true}, 2})
